@@ -20,6 +20,8 @@ type Opts struct {
 	DeclAfterNested bool // declarations after a nested rule in the same block
 	MixedParents    bool // nested rules under parent lists whose selectors have different specificity
 	Junk            bool // bad declarations that must be skipped by error recovery
+	ZOnly           bool // declarations are "z-index: <integer>" only (used to calibrate cssref against a browser)
+	NoStates        bool // no :hover/:active/:focus-visible (a headless browser cannot be put into those states)
 	MaxRules        int
 }
 
@@ -69,10 +71,19 @@ func (g *G) subclass() string {
 	case 2:
 		return g.pick("attr", []string{`[title]`, `[title="t"]`, `[title=t]`, `[title~=there]`, `[data-k|="v"]`, `[data-k^=v]`, `[title$="re"]`, `[title*=i]`, `[data-k]`, `[title="T" i]`})
 	case 3:
+		if g.O.NoStates {
+			return g.pick("pcs", []string{":first-child", ":last-child"})
+		}
 		return g.pick("pc", []string{":hover", ":first-child", ":last-child", ":active", ":hover", ":first-child"})
 	default:
 		if g.O.Free {
+			if g.O.NoStates {
+				return ":-moz-ui-invalid"
+			}
 			return g.pick("freepc", []string{":focus-visible", ":-moz-ui-invalid", ":focus-visible"})
+		}
+		if g.O.NoStates {
+			return ":first-child"
 		}
 		return ":hover"
 	}
@@ -139,7 +150,11 @@ func (g *G) innerList(depth int) string {
 		if g.chance("innercx", 25) {
 			parts = append(parts, g.simpleCompound()+g.combinator()+g.simpleCompound())
 		} else if g.O.Free && g.chance("innerfree", 8) {
-			parts = append(parts, g.pick("forgiven", []string{":focus-visible", ":-moz-ui-invalid", ".a:focus-visible"}))
+			if g.O.NoStates {
+				parts = append(parts, ":-moz-ui-invalid")
+			} else {
+				parts = append(parts, g.pick("forgiven", []string{":focus-visible", ":-moz-ui-invalid", ".a:focus-visible"}))
+			}
 		} else {
 			parts = append(parts, g.compound(depth))
 		}
@@ -569,6 +584,13 @@ func (g *G) declList() []string {
 }
 
 func (g *G) body() string {
+	if g.O.ZOnly {
+		b := "z-index: " + g.pick("zonly", []string{"1", "2", "3", "4", "5", "6", "7", "8", "9"}) + g.important()
+		if g.chance("zonly2", 25) {
+			b += "; z-index: " + g.pick("zonly", []string{"11", "12", "13"}) + g.important()
+		}
+		return b
+	}
 	if len(g.bodies) > 0 && g.chance("reusebody", 30) {
 		return g.pick("oldbody", g.bodies)
 	}
@@ -662,7 +684,11 @@ func (g *G) styleRule() string {
 	}
 	sb.WriteString(g.nestedItems(1, hasPE))
 	if g.O.DeclAfterNested && g.chance("declafter", 40) {
-		sb.WriteString(" " + g.otherDecl() + ";")
+		if g.O.ZOnly {
+			sb.WriteString(" " + g.body() + ";")
+		} else {
+			sb.WriteString(" " + g.otherDecl() + ";")
+		}
 	}
 	sb.WriteString(" }")
 	return sb.String()
